@@ -23,6 +23,9 @@ CHECKS = {
  'C14': dict(ref='§4 C14', note=BASE + 'Claimed for the case where the previously trusted root is the shipped one (the general case falls under the recorded C03 root-persistence findings). Key lists of length 1 and 2 on either side; end-to-end 2-cycle history with one key per role; a native menu of list shapes (extended, truncated, re-ordered, replaced, unchanged) validates the list model on every run.'),
  'C15': dict(ref='§4 C15', note=BASE + 'File-system model: tokio::fs::write = open(O_TRUNC) then write; rename atomic; a created/truncated, incompletely written file does not parse; every datastore call may fail (ENOSPC/EIO) or be the last one before the process dies. History: clean cycle, faulted cycle, clean cycle; one root hop; temporary files the code creates become part of the tracked datastore state.'),
  'C05': dict(ref='§4 C05', note=BASE + 'Sha-256 is a function of the sequence of accepted chunks; <=1 (quick) / <=2 (thorough) chunks per file; delegation trees of depth <=2 (quick) / <=3 (thorough).'),
+ 'C07': dict(ref='§4 C07', note='Trusted base: GlobMatcher::is_match and the hex SHA-256 prefix test are uninterpreted functions of (pattern, string); HashMap::get finds an entry iff the role lists the name. Targets::find_target, PathSet/PathPattern/PathHashPrefix::matches_target_name, TargetName::resolved and Targets::validate run from MIR on delegation trees of depth <=3 and fan-out <=3 with 1..2 patterns/prefixes per delegation, symbolic membership of one (find_target) / two (validate) names in every role, raw != resolved and raw == resolved names; a native sweep (663 repositories with real globs/hash prefixes) validates the model end to end. Larger trees are outside the claim.'),
+ 'C08': dict(ref='§4 C08', note=BASE + 'Repository::save_target runs from MIR for both Prefix modes, names that do / do not need resolution, and a scripted verified stream of 0..2 (quick) / 0..3 (thorough) items each Ok(bytes) or Err; whether parent(outdir.join(name)) starts with outdir is an uninterpreted predicate of the file-name variant (Path::join/parent/starts_with are lexical in std); NamedTempFile::new_in / persist / drop follow the tempfile contract (create in dir, rename(2), unlink on drop). Obligations: no fs effect before the containment check passes, bytes only go to the temp file, rename only after the stream ended Ok, temp file gone on every error path, nothing outside outdir. A native sweep (real files, hostile names, failing streams) validates the model.'),
+ 'C16': dict(ref='§4 C16', note='Trusted base: percent_encoding::utf8_percent_encode escapes exactly the bytes of the AsciiSet plus non-ASCII (the set itself is evaluated from the const initialiser in the MIR of the current tree); encode_filename and its call sites (datastore names, cache file names, target file names, role URLs) run from MIR; injectivity and path-safety are solver queries over symbolic bytes (names of <=4 bytes; longer names follow by the byte-wise definition, stated as outside the solver claim); native sweep over all 1- and 2-byte names and a hostile menu compares against a reference encoder and against the real file system.'),
 }
 
 NA = {
